@@ -227,6 +227,14 @@ def gen_values(sort_src, rng, p_hint, budget):
         for p in (1, 2):
             for ent in itertools.product((0, 1, -1, 2), repeat=p * p):
                 out.append(np.array(ent, dtype=dt).reshape(p, p))
+        # entries of tiny / huge magnitude: only the non-zero pattern may matter
+        if dt is float:
+            for tiny in (1e-9, -1e-12, 1e-300, 1e9):
+                out.append(np.array([[tiny]]))
+                out.append(np.array([[0.0, 1.0], [tiny, 0.0]]))
+                out.append(np.array([[0.0, tiny], [0.0, 0.0]]))
+                out.append(np.array([[0.0, 1.0, 0.0], [0.0, 0.0, tiny], [-tiny, 0.0, 0.0]]))
+                out.append(np.array([[0.0, tiny, 1.0], [0.0, 0.0, -tiny], [0.0, 0.0, 0.0]]))
         # p = 3: every binary matrix with zero diagonal, every signed DAG weighting over {0, 1, -1}
         off = [(i, j) for i in range(3) for j in range(3) if i != j]
         for bits in itertools.product((0, 1), repeat=6):
@@ -281,6 +289,8 @@ def gen_values(sort_src, rng, p_hint, budget):
                     var = np.array([rng.choice((1, 2, 3, 0.5)) for _ in range(p)], dtype=float)
                     if rep == 3:     # integer-typed model arrays
                         W, mu, var = np.round(W).astype(int), mu.astype(int), np.ceil(var).astype(int)
+                    if rep == 2:     # tiny noise variances
+                        var = var * 1e-10
                     out.append(LGANM(W, mu, var))
             return out
         if cls.endswith('NormalDistribution'):
@@ -294,6 +304,9 @@ def gen_values(sort_src, rng, p_hint, budget):
                     C = L @ L.T + np.eye(p) * rng.choice((0.5, 1, 2))
                     m = np.array([rng.choice((-3, -1, 0, 2, 0.5)) for _ in range(p)], dtype=float)
                     out.append(NormalDistribution(m, C))
+                    if _ == 0:      # the same law in very small / large units
+                        out.append(NormalDistribution(m * 1e-5, C * 1e-10))
+                        out.append(NormalDistribution(m * 1e3, C * 1e6))
                 # integer-typed parameters (numpy keeps the dtype of the arrays it is given)
                 Li = np.array([[rng.choice((-1, 0, 1, 2)) if j <= i else 0 for j in range(p)] for i in range(p)], dtype=int)
                 out.append(NormalDistribution(np.array([rng.choice((-3, 1, 0, 2)) for _ in range(p)], dtype=int), Li @ Li.T + np.eye(p, dtype=int)))
